@@ -371,7 +371,7 @@ def simulate(plan):
                 if f["kind"] == "crash":
                     bump(probe, "crash_fired")
             viols = check_b6(before, after, o.events, listed)
-            rec = {"op": "sync", "argv": op["argv"], "outcome": o.brief(), "world": SimWorld.digest(after)}
+            rec = {"op": "sync", "argv": op["argv"], "outcome": o.brief(), "world": SimWorld.digest(after), "key": o.key()}
             if o.ok and not o.fired:
                 sync_done = True
                 bump(probe, "sync_ok")
@@ -456,7 +456,7 @@ def simulate(plan):
     finally:
         world.destroy()
     res.trace = {"kind": "c12-plan", "plan": concrete, "files": files, "history": history}
-    res.digest = digest_of(history)
+    res.digest = digest_of([[h.get("op"), h.get("key"), h.get("world")] for h in history])
     res.nontrivial = sync_done and changed_any
     res.sample = {"files": {k: v[:400] for k, v in files.items()}, "history": history}
     return res
